@@ -262,6 +262,13 @@ static std::string hex(const std::string &s) {
   for (unsigned char c : s) { o += d[c >> 4]; o += d[c & 15]; }
   return o.empty() ? std::string("-") : o;
 }
+template <class U> static std::string in_base(U v, int base) {
+  bool neg = std::is_signed<U>::value && v < 0;
+  unsigned long long m = neg ? 0ULL - static_cast<unsigned long long>(static_cast<long long>(v)) : static_cast<unsigned long long>(v);
+  std::string d;
+  do { d.insert(d.begin(), "0123456789abcdef"[m %% base]); m /= base; } while (m);
+  return std::string(neg ? "-" : "") + (base == 16 ? "0x" : base == 2 ? "0b" : "") + d;
+}
 namespace ns = ::emboss_generated_code;
 int main() {
 """
@@ -312,6 +319,17 @@ def build_driver(md, name, plan):
                      'if (c) { std::memset(buf, 0, sizeof buf); w = view.%s().TryToWrite(x); rb = static_cast<U>(view.%s().Read()); } '
                      'std::cout << "FW i=%d j=" << j << " could=" << c << " wrote=" << w << " rb=" << num(rb) << "\\n"; }'
                      % (len(vals), f["name"], f["name"], i))
+            # the text path: numeric text in bases 10/16/2, and WriteToString -> UpdateFromText of what was written
+            L.append('      for (unsigned j = 0; j < %d; ++j) { T x = static_cast<T>(static_cast<U>(probe_values[j])); '
+                     'static const int bases[3] = {10, 16, 2}; '
+                     'for (int b = 0; b < 3; ++b) { std::memset(buf, 0, sizeof buf); '
+                     'bool u = ::emboss::UpdateFromText(view.%s(), in_base(static_cast<U>(x), bases[b])); '
+                     'std::cout << "FT i=%d j=" << j << " base=" << bases[b] << " ok=" << u << " rb=" << num(static_cast<U>(view.%s().Read())) << "\\n"; } '
+                     'if (FV::CouldWriteValue(x)) { std::memset(buf, 0, sizeof buf); view.%s().Write(x); '
+                     'std::string s = ::emboss::WriteToString(view.%s()); std::memset(buf, 0, sizeof buf); '
+                     'bool u = ::emboss::UpdateFromText(view.%s(), s); '
+                     'std::cout << "FRT i=%d j=" << j << " ok=" << u << " rb=" << num(static_cast<U>(view.%s().Read())) << " text=" << hex(s) << "\\n"; } }'
+                     % (len(vals), f["name"], i, f["name"], f["name"], f["name"], f["name"], i, f["name"]))
             # raw patterns: all ones, and only the top bit of the field
             L.append('      std::memset(buf, 0xff, sizeof buf); std::cout << "FR i=%d j=0 read=" << num(static_cast<U>(view.%s().Read())) << "\\n";' % (i, f["name"]))
             top = f["offset"] * 8 + f["bit_offset"] + f["kbits"] - 1
@@ -322,6 +340,18 @@ def build_driver(md, name, plan):
         L.append("  }")
     L.append("  return 0;\n}\n")
     return "\n".join(L)
+
+
+def declared_enumerators(header_path, name):
+    """Names of the enumerators of `enum class <name>` as written in the generated header."""
+    try:
+        src = open(header_path).read()
+    except OSError:
+        return None
+    m = re.search(r"enum class %s\s*:\s*[^{;]*\{(.*?)\};" % re.escape(name), src, re.S)
+    if not m:
+        return None
+    return re.findall(r"^\s*([A-Za-z_][A-Za-z0-9_]*)\s*=", m.group(1), re.M)
 
 
 def front_end_status(text):
@@ -434,7 +464,7 @@ def run_modules(ctx, mods):
         for tag, kv in obs:
             if tag in ("ENUM", "EV", "FROM", "TO", "FROMNULL"):
                 per_enum.setdefault(int(kv["i"]), []).append((tag, kv))
-            elif tag in ("FIELD", "FW", "FR"):
+            elif tag in ("FIELD", "FW", "FR", "FT", "FRT"):
                 per_field.setdefault(int(kv["i"]), []).append((tag, kv))
         outs = []
         ins = []
@@ -447,6 +477,11 @@ def run_modules(ctx, mods):
             head = [kv for t, kv in o if t == "ENUM"][0]
             sgn, bits = ir_enum_attrs(r.ir, e["cpp_name"])
             evs = [(kv["name"], int(kv["value"])) for t, kv in o if t == "EV"]
+            declared = declared_enumerators(res.header, e["cpp_name"].split("::")[-1])
+            if declared is not None and declared != [n for n, _ in evs]:
+                ctx.violation("enum-header-enumerators", "enum %s declares the enumerators %s; by the enum_case scoping rule they are %s"
+                              % (e["cpp_name"], declared[:12], [n for n, _ in evs][:12]),
+                              dict(kind="enum-module", module=md, enum=e["cpp_name"], declared=declared), found_input=True)
             frm = [(int(kv["value"]) if kv["ok"] == "1" else None) for t, kv in o if t == "FROM"]
             to = [(None if kv["name"] == "-" else kv["name"]) for t, kv in o if t == "TO"]
             known = [kv["known"] == "1" for t, kv in o if t == "TO"]
@@ -504,6 +539,24 @@ def run_modules(ctx, mods):
                         ctx.violation("enum-field-trytowrite", "CouldWriteValue and TryToWrite disagree on a complete buffer",
                                       dict(kind="enum-module", module=md, field=f["name"], value=v), found_input=True)
                     ws.append("(%s, %s, %s)" % (z(v), fw.coq_bool(kv["could"] == "1"), z(int(kv["rb"]))))
+                # text path against the direct path (which is compared with the model below)
+                direct = {j: kv for j, (t, kv) in enumerate([x for x in o if x[0] == "FW"])}
+                for t, kv in o:
+                    if t not in ("FT", "FRT"):
+                        continue
+                    j = int(kv["j"])
+                    v, dk = r.plan["fields"][i][j], direct[j]
+                    want_ok = dk["could"] == "1"
+                    good = (kv["ok"] == "1") == want_ok and (not want_ok or int(kv["rb"]) == int(dk["rb"]))
+                    ctx.count("text:%s" % ("numeric-base-%s" % kv["base"] if t == "FT" else "round-trip"))
+                    if not good:
+                        what = ("UpdateFromText of numeric text (base %s)" % kv["base"]) if t == "FT" else \
+                               ("UpdateFromText(WriteToString) [text %r]" % bytes.fromhex(kv["text"]).decode("latin-1"))
+                        ctx.violation("enum-text-" + ("numeric-read" if t == "FT" else "round-trip"),
+                                      "%s of value %d on enum field %s (%d bits, %s int%d): ok=%s value=%s; writing the value directly: "
+                                      "could=%s value=%s" % (what, v, f["name"], f["kbits"], "signed" if ts else "unsigned", tb,
+                                                             kv["ok"], kv["rb"], dk["could"], dk["rb"]),
+                                      dict(kind="enum-module", module=md, field=f["name"], value=v), found_input=True)
                 k = f["kbits"]
                 raws = [2**k - 1, 2**(k - 1)]
                 rs = ["(%s, %s)" % (z(raw), z(int(kv["read"]))) for (t, kv), raw in zip([x for x in o if x[0] == "FR"], raws)]
@@ -657,6 +710,13 @@ def _run_check(ctx):
     forb = forbidden_names()
     mods = corpus_modules()
     n_mod = 400 if ctx.thorough() else 48
+    # shapes every run must contain: a $default enum_case on an earlier type followed by plain enums
+    for _ in range(6 if ctx.thorough() else 3):
+        for attempt in range(40):
+            m = gen_enum.EnumModule(ctx.rng, forbidden=forb, p_invalid=0.0, p_collision=0.0, p_bad_case=0.0, shape="scoped-default")
+            if front_end_status(m.text())[0] == 0:
+                mods.append(module_dict(m))
+                break
     for i in range(n_mod):
         m = gen_enum.EnumModule(ctx.rng, forbidden=forb)
         mods.append(module_dict(m))
